@@ -166,8 +166,8 @@ def leftAfterReinit (o : Obj) (dirty : List String) : List String :=
   What such a call may leave changed in the object is read off the tables: the stores of every
   function reachable from the entry point along calls that pass the object on (`objCalls` whose
   first argument is not a freshly created object) — minus the fields the entry point itself puts
-  back (`saved:<f>` as its last, unconditional store: a save / restore bracket such as
-  `wbxml_encoder_encode_tree` makes around `lang`). -/
+  back on every path (`Fn.brackets`: a save / restore bracket such as `wbxml_encoder_encode_tree`
+  makes around `lang`). -/
 
 /-- Functions of the file that `name` calls on an object that existed before the call. -/
 def calleesOnObj (o : Obj) (name : String) : List String :=
@@ -198,14 +198,14 @@ def ownWrites (o : Obj) (name field : String) : Bool := (ownWritten o name).cont
 /-- The fields some function reachable from `roots` stores to (with repetitions). -/
 def writtenFields (o : Obj) (roots : List String) : List String := (reach o roots).flatMap (ownWritten o)
 
-/-- `name` puts the entry value of `field` back on every path: each of its own stores to the field is
-    a plain unconditional store through the first parameter and the last one stores the saved entry
-    value.  (Vacuously true for a function without own stores to the field.) -/
+/-- `name` puts the entry value of `field` back on every path to a return: it saves the field before
+    it stores to it or passes the object on, and on every path the last thing it does to the object is
+    the store of the saved value (`Fn.brackets`: the translator's walk over the structured body — a
+    restore in each branch of an early return counts, an early return without it does not). -/
 def restoresSaved (o : Obj) (name field : String) : Bool :=
-  let ss := (storesOf o name).filter (fun s => s.field == field)
-  match ss.getLast? with
-  | none => true
-  | some l => ss.all (fun s => s.op == "=" && !s.cond && s.base == "param0") && l.value == "saved:" ++ field
+  match findFn o name with
+  | some f => f.brackets.contains field
+  | none => false
 
 /-- The fields a call of entry point `e` may leave different from what it found: what `e` or anything
     reachable from it stores to — except the fields `e` brackets (whatever its callees do to them in
